@@ -2,6 +2,7 @@ import Driver.SettingsD
 import Driver.CacheD
 import Driver.UrlD
 import Driver.LoaderD
+import Driver.SoapD
 /-! Line-protocol driver: one JSON object per stdin line, one per stdout line. -/
 open Lean Driver
 
@@ -15,6 +16,7 @@ def dispatch (j : Json) : R Json := do
   | "url.normalize" => urlNormalize j
   | "url.port" => urlPort j
   | "loader.policy" => loaderPolicy j
+  | "soap.triage" => soapTriage j
   | _ => throw s!"unknown op {op}"
 
 def handleLine (line : String) : String :=
